@@ -297,12 +297,14 @@ def eof_rules(ctx, rule):
             for bb, c in p.conds:
                 if c and c[0] == "scalar" and isinstance(c[2], bool):
                     consts = [x for x in absint.walk_terms(c[1]) if x and x[0] == "agg" and x[1] == "std::io::ErrorKind"]
-                    if any(x[2] == "TimedOut" for x in consts):
+                    if any(x[2] in ("TimedOut", "WouldBlock") for x in consts):      # both are how an expired socket timeout is reported
                         v, val, neg = c[1], c[2], False
                         while v[0] == "unop" and v[1] == "Not":
                             v, neg = v[2], not neg
                         is_ne = v[0] == "call" and v[1].endswith("::ne")
                         timed_out = (val != neg) != is_ne
+                if c and c[0] == "variant" and c[2] in ("TimedOut", "WouldBlock") and c[3] and c[3][0] == "call" and re.search(r"io::Error::kind$|error::Error::kind$", c[3][1]):
+                    timed_out = True          # `matches!(err.kind(), TimedOut | WouldBlock)`
             if timed_out:
                 continue
             n += 1
